@@ -166,6 +166,10 @@ func apply[S ~[]E, E selectable](list S, submissionRequirement SubmissionRequire
 		return returnVCs, nil
 	}
 	// check min and max rules
+	// a requirement with min > max can't be fulfilled by any selection: taking max members would return less than min
+	if submissionRequirement.Min != nil && submissionRequirement.Max != nil && *submissionRequirement.Max < *submissionRequirement.Min {
+		return nil, errors.Join(ErrNoCredentials, fmt.Errorf("submission requirement (%s) can't be fulfilled: min (%d) is greater than max (%d)", submissionRequirement.Name, *submissionRequirement.Min, *submissionRequirement.Max))
+	}
 	// only check if min requirement is met, max just determines the upper bound for the return
 	if submissionRequirement.Min != nil && selectableCount < *submissionRequirement.Min {
 		return nil, errors.Join(ErrNoCredentials, fmt.Errorf("submission requirement (%s) has less matches (%d) than minimal required (%d)", submissionRequirement.Name, selectableCount, *submissionRequirement.Min))
